@@ -1540,6 +1540,20 @@ func (a *fnAnalysis) call(st *rstate, x *ssa.Call) {
 			callee, _ = mc.Fn.(*ssa.Function)
 		}
 	}
+	if callee != nil && callee.Synthetic != "" && callee.Pkg == nil && callee.Parent() == nil && len(callee.FreeVars) == 1 {
+		// x.M used as a function value: the call is the method call with the bound receiver
+		if mc, ok := common.Value.(*ssa.MakeClosure); ok && len(mc.Bindings) == 1 {
+			if m, ok := callee.Object().(*types.Func); ok {
+				if real := callee.Prog.FuncValue(m); real != nil && real != callee && len(real.Params) == len(common.Args)+1 {
+					cc := *common
+					cc.Value = real
+					cc.Args = append([]ssa.Value{mc.Bindings[0]}, common.Args...)
+					common = &cc
+					callee = real
+				}
+			}
+		}
+	}
 	if callee == nil {
 		if isIntType(x.Type()) {
 			st.iv[x] = topVal()
@@ -1606,9 +1620,11 @@ func (a *fnAnalysis) call(st *rstate, x *ssa.Call) {
 		}
 		a.res.retsUsed[callee] = true
 		if isIntType(x.Type()) {
-			v, ok := a.e.siteOverride[fname(a.fn)+"|"+fname(callee)]
+			// a bound method value (x.M used as a function) is the method itself
+			cname := strings.TrimSuffix(fname(callee), "$bound")
+			v, ok := a.e.siteOverride[fname(a.fn)+"|"+cname]
 			if !ok {
-				v, ok = a.e.retOverride[fname(callee)]
+				v, ok = a.e.retOverride[cname]
 			}
 			if !ok {
 				v = a.e.retSum[callee].orBot()
